@@ -137,6 +137,8 @@ Classes(a) == IF a = 1 THEN {"c"} ELSE IF a = 2 THEN {"c", "d"} ELSE {}       \*
 FindName(n) == SelectSeq(WalkOf(kids, 0), LAMBDA id : nodes[id].n = n)
 FindClass(n, c) == SelectSeq(WalkOf(kids, 0), LAMBDA id : nodes[id].n = n /\ c \in Classes(nodes[id].a))
 FindKind(k) == SelectSeq(WalkOf(kids, 0), LAMBDA id : nodes[id].k = k)
+(* several classes: the element must carry ALL of them (none requested: every element of that name) *)
+FindClasses(n, cs) == SelectSeq(WalkOf(kids, 0), LAMBDA id : nodes[id].n = n /\ cs \subseteq Classes(nodes[id].a))
 FindOrder == st = "run" => \A n \in {e[2] : e \in {x \in Events : x[1] = "start"}} :
                LET f == FindName(n) IN \A j \in 1..(Len(f) - 1) : f[j] < f[j + 1]
 
@@ -149,5 +151,7 @@ Emit == PrintT(ToJson([evs |-> evs, st |-> st, nodes |-> nodes,
                        strip1 |-> IF st = "run" THEN StripRender(TRUE) ELSE <<>>,
                        finda |-> IF st = "run" THEN FindName("a") ELSE <<>>,
                        findc |-> IF st = "run" THEN FindClass("a", "c") ELSE <<>>,
+                       findcd |-> IF st = "run" THEN FindClasses("a", {"c", "d"}) ELSE <<>>,
+                       finde |-> IF st = "run" THEN FindClasses("a", {}) ELSE <<>>,
                        findd |-> IF st = "run" THEN FindKind("Data") ELSE <<>>]))
 =============================================================================
